@@ -177,7 +177,7 @@ def solo_outcome(ops, cpu, ram, tps, exact):
 
 
 class Chaos:
-    FAULTS = ("oversell_cpu", "oversell_ram", "sus_not_boundary", "sus_suspending", "sus_suspended",
+    FAULTS = ("oversell_cpu", "oversell_ram", "oversell_during_writeout", "sus_not_boundary", "sus_suspending", "sus_suspended",
               "sus_unknown", "sus_other_pool", "sus_twice", "pool_range_asg", "pool_range_sus",
               "dep_pending_parent", "dep_order", "dep_late", "construct_completed", "construct_assigned",
               "construct_cpu0", "construct_ram0", "construct_empty", "construct_dup", "opcount")
@@ -329,6 +329,29 @@ class Chaos:
         def small_ram():
             return self.unit * (F(1, 2) if cfg["exact"] else F(513, 1000))
 
+        if kind == "oversell_during_writeout":
+            # needs more CPU than is free now, but no more than will be free once a write-out that ends in this very
+            # tick has returned its allocation: the allocation is kept until the suspension has finished
+            ro = ready_ops()
+            taken = set((c["pl"], i) for c in asgs for i in c["ops"])
+            ro = [x for x in ro if x not in taken]
+            for p in pools:
+                ending = [c for c in p.suspending if c.sus_left == 1]
+                mine = [c for c in asgs if c["pool"] == p.pid]
+                fc = p.av_cpu - sum(frac(c["cpu"]) for c in mine)
+                fr = p.av_ram - sum(frac(c["ram"]) for c in mine)
+                if not ending or not ro or fc + ending[0].cpu < 1:
+                    continue
+                want = fc + ending[0].cpu
+                if want.denominator != 1 or want <= fc or want < 1:
+                    continue
+                ram = small_ram()
+                if not cfg["over"] and ram > fr:
+                    continue
+                bi, i = ro[0]
+                return cmds + [{"k": "asg", "id": self.label(), "pl": bi, "ops": [i], "cpu": fstr(want), "ram": fstr(ram),
+                                "pool": p.pid, "fault": kind}]
+            return None
         if kind in ("oversell_cpu", "oversell_ram"):
             ro = ready_ops()
             if len(ro) < 2:
@@ -761,6 +784,10 @@ def run(scn, rng=None):
             if ended:
                 sig.append(tick_sig)
                 break
+            if scn.get("decoy_at") == t:
+                # another simulation being set up in the same process must not disturb this executor
+                Executor(num_pools=1, cpus_per_pool=1, ram_gb_per_pool=1, ticks_per_second=tps)
+                out["faults"]["other_executor_constructed"] = 1
             # ---- executor phase -------------------------------------------------
             stop = False
             for attempt in (0, 1):
